@@ -14,6 +14,7 @@
 From Coq Require Import List ZArith NArith Bool String.
 From XV Require Import Lib.Sx Model.XmlTree Model.Parser Proofs.XmlTreeP Proofs.ParserP
   Gen.Generated.
+From XV Require Import Model.XmlText Model.XmlPrint Model.XmlLex Model.XmlBridge Proofs.XmlBridgeP.
 Import ListNotations.
 Local Open Scope nat_scope.
 
@@ -151,6 +152,54 @@ Proof.
     + intros [H|H]; [discriminate | exact H].
 Qed.
 
+(* FRAMING ON THE PRINTED BYTES (composition with C01's verified printer / lexer).
+   [es]: any list of top-level element trees in the intersection of both domains:
+   - C01's [wf_doc]: namespace-explicit trees (every element carries its namespace, no
+     namespace-less element below a namespaced one), names without < > & quotes = / : or
+     white space, XML-legal characters, no empty and no adjacent text nodes;
+   - C02's [top_ok] on the bridged trees (dispatchable top-level name; children arbitrary
+     trees of that class; hypotheses (a)-(c) of C02_framing).
+   [print_stream es] is the concatenation of what xml.Marshal writes for each element
+   (XmlPrint.print) followed by </stream:stream>; [stream_tokens] cuts that end tag off, runs
+   C01's lexer and tree builder (default-namespace resolution) and hands the model the
+   tokens of the bridged trees.  Then NextPacket, called until it fails, returns exactly
+   the packets of the elements, the close packet and "connection closed".
+
+   Chain:  bytes --[C01 lex + build: PROVED inverse of print, C01_lex_print / build_tree,
+   list version lex_trees_print]--> trees --[bridge: a map, code points -> UTF-8]-->
+   tokens --[C02_framing: PROVED]--> packets.
+   What remains correspondence-only (tested, not proved): that Go's own tokenizer
+   (encoding/xml Decoder.Token) yields on these bytes the tokens C01's lexer + builder
+   yield (C01's harness compares parse results with xml.Unmarshal; C02's harness feeds
+   Go's tokenizer its own serialisation, incl. prefixes, self-closing tags, single quotes,
+   comments, CDATA - syntax outside C01's printed language), that xml.Marshal writes what
+   XmlPrint.print writes (C01's harness, byte for byte), and the UTF-8 encoding [utf8]. *)
+Theorem C02_framing_bytes : forall reg (es : list xtree),
+  forallb wf_doc es = true ->
+  forallb (top_ok reg) (bridge_trees es) = true ->
+  option_map (run_packets reg true) (stream_tokens (print_stream es))
+  = Some (pkts_of (bridge_trees es) ++ [PClose; Err EEof]).
+Proof.
+  intros reg es Hwf Hok. rewrite (stream_tokens_print es Hwf). cbn [option_map].
+  f_equal. now apply framing_closed.
+Qed.
+
+(* the same when the bytes just end after the last element *)
+Theorem C02_framing_bytes_eof : forall reg (es : list xtree),
+  forallb wf_doc es = true ->
+  forallb (top_ok reg) (bridge_trees es) = true ->
+  option_map (run_packets reg true) (open_stream_tokens (print_open_stream es))
+  = Some (pkts_of (bridge_trees es) ++ [Err EEof]).
+Proof.
+  intros reg es Hwf Hok. rewrite (open_stream_tokens_print es Hwf). cbn [option_map].
+  f_equal. now apply framing_eof.
+Qed.
+
+(* the byte -> tree step alone: list version of C01_parse_print *)
+Theorem C02_lex_print_stream : forall es : list xtree,
+  forallb wf_doc es = true -> lex_trees (flat_map print es) = Some es.
+Proof. exact lex_trees_print. Qed.
+
 (* ---- witnesses ---- *)
 Definition cl (l : string) : name := (ns_client, bytes_of l).
 Definition un (l : string) : name := (bytes_of "u", bytes_of l).
@@ -233,6 +282,36 @@ Example C02_example :
   = pkts_of example_items ++ [PClose; Err EEof].
 Proof. split; [|split; [|split]]; vm_compute; reflexivity. Qed.
 
+(* bytes-level non-vacuity: D3's shape, a nested same-named stanza, escaped and non-ASCII
+   text, an unknown namespace, attributes with metacharacters; the first conjunct shows
+   the bytes *)
+Definition cp (s : string) : str := bytes_of s.   (* ASCII: code point = byte *)
+Definition example_xtrees : list xtree :=
+  [ XE ns_client (cp "message") [(cp "id", cp "m<1>"); (cp "to", cp "a@b")]
+      [ XE ns_client (cp "body") [] [XT false (cp "h" ++ [233%N] ++ cp "llo <&> ")];
+        XE (cp "u") (cp "x") []
+           [ XE ns_client (cp "message") [(cp "id", cp "inner")] [];
+             XE ns_client (cp "body") [] [XT false (cp "fake")] ] ];
+    XE ns_client (cp "presence") [] [];
+    XE ns_sm (cp "r") [] [] ].
+
+Example C02_example_bytes :
+  print_stream example_xtrees
+  = cp "<message xmlns=""jabber:client"" id=""m&lt;1&gt;"" to=""a@b""><body xmlns=""jabber:client"">h"
+    ++ [233%N] ++
+    cp "llo &lt;&amp;&gt; </body><x xmlns=""u""><message xmlns=""jabber:client"" id=""inner""></message><body xmlns=""jabber:client"">fake</body></x></message><presence xmlns=""jabber:client""></presence><r xmlns=""urn:xmpp:sm:3""></r></stream:stream>"
+  /\ forallb wf_doc example_xtrees = true
+  /\ forallb (top_ok registry) (bridge_trees example_xtrees) = true
+  /\ option_map (run_packets registry true) (stream_tokens (print_stream example_xtrees))
+     = Some [ PMessage {| a_type := []; a_id := bytes_of "m<1>"; a_from := [];
+                          a_to := bytes_of "a@b"; a_lang := [] |};
+              PPresence {| a_type := []; a_id := []; a_from := []; a_to := []; a_lang := [] |};
+              PSmR; PClose; Err EEof ].
+Proof. repeat split; vm_compute; reflexivity. Qed.
+
+Print Assumptions C02_framing_bytes.
+Print Assumptions C02_framing_bytes_eof.
+Print Assumptions C02_lex_print_stream.
 Print Assumptions C02_framing.
 Print Assumptions C02_framing_eof.
 Print Assumptions C02_one_element.
